@@ -111,10 +111,10 @@ func tbrun(args []string) {
 		co, ref, main, errs := tbRender(pkg, insts, fuel, pulls)
 		fail := func(status, msg string) {
 			if len(insts) > 1 {
-				// isolate: one template per package
-				for i, in := range insts {
-					runPkg(fmt.Sprintf("%sx%d", pkg, i), []tbInst{in})
-				}
+				// bisect: halve the package until the failing templates stand alone
+				h := len(insts) / 2
+				runPkg(pkg+"a", insts[:h])
+				runPkg(pkg+"b", insts[h:])
 				return
 			}
 			mu.Lock()
@@ -193,7 +193,7 @@ func tbrun(args []string) {
 	var normal []tbInst
 	var isolated []tbInst
 	n := 0
-	for _, t := range tb.Templates {
+	for _, t := range append(append([]tb.Template(nil), tb.Templates...), tb.CrossTemplates()...) {
 		n++
 		in := tbInst{t, fmt.Sprintf("T%d_", n)}
 		if t.MayReject {
